@@ -258,6 +258,9 @@ func (g *G) Valid(t *spec.Type, v *spec.Val, loc Loc, depth int) any {
 		o := map[string]any{}
 		for _, a := range rt.Attrs {
 			req := rt.IsRequired(a.Name) || a.HasDef // a defaulted attribute is a non-pointer field: always set explicitly
+			if at, _ := g.S.Resolve(a.Type); a.HasDef && at != nil && (at.Kind == spec.Array || at.Kind == spec.Map) && !rt.IsRequired(a.Name) {
+				req = false // ... except collections, which can be left nil (the default applies)
+			}
 			if !req {
 				if g.Minimal || (!g.Full && g.R.Chance(1, 2)) || depth > 3 {
 					continue
